@@ -148,6 +148,20 @@ def one_history(lab, mon, rng, case, stale, sample=False):
         got = lines or []
         mon.check("rerun.lists_exactly_unsuccessful", got == [w[0] for w in want],
                   lambda: W(got=got, want=[list(w) for w in want], file_exists=lines is not None))
+        # ---- every listed location is the line where a scenario (or an examples row) really starts, and no location twice ----
+        texts_on_disk = {}
+        for entry in got:
+            fpath, _sep, lno = entry.rpartition(":")
+            try:
+                if fpath not in texts_on_disk:
+                    with open(fpath, encoding="utf-8") as fh:
+                        texts_on_disk[fpath] = fh.read().split("\n")
+                line_text = texts_on_disk[fpath][int(lno) - 1].strip()
+            except Exception as ex:
+                line_text = "<%r>" % (ex,)
+            mon.check("rerun.location_is_the_line_of_a_scenario_or_row", line_text.startswith(("|", "Scenario", "Example")),
+                      lambda: W(entry=entry, text_at_that_line=line_text, listed=got))
+        mon.check("rerun.no_location_listed_twice", len(set(got)) == len(got), lambda: W(listed=got))
         # ---- independent of the statuses behave assigned: what the reference model / the harness know ----------------
         loc_name = {}
         for f in feats:
